@@ -228,19 +228,42 @@ func RaceSignature(text string) (coarse, detail string) {
 		parts := regexp.MustCompile(`(?m)^(Read|Write|Previous read|Previous write|Atomic|Previous atomic)[^\n]*\n`).Split(b, -1)
 		var tops, fns []string
 		for _, p := range parts[1:] {
-			for _, m := range frameRe.FindAllStringSubmatch(p, -1) {
-				fn, file := m[1], m[2]
-				if strings.HasPrefix(fn, "runtime.") || strings.Contains(file, "/simrt/") {
-					continue
+			// the innermost frame inside prism names the access (a standard-library
+			// setter called from a worker closure is attributed to the closure's
+			// function); without any prism frame the innermost non-runtime frame
+			frames := frameRe.FindAllStringSubmatch(p, -1)
+			pick := -1
+			for i, m := range frames {
+				if strings.Contains(m[1], "mandykoh/prism") {
+					pick = i
+					break
 				}
+			}
+			if pick < 0 {
+				for i, m := range frames {
+					if !strings.HasPrefix(m[1], "runtime.") && !strings.Contains(m[2], "/simrt/") {
+						pick = i
+						break
+					}
+				}
+			}
+			if pick >= 0 {
+				m := frames[pick]
 				ln, _ := strconv.Atoi(m[3])
-				short := fn
+				short := m[1]
 				if k := strings.LastIndex(short, "/"); k >= 0 {
 					short = short[k+1:]
 				}
-				tops = append(tops, short+"@"+origPos(file, ln))
+				inner := frames[0][1]
+				if k := strings.LastIndex(inner, "/"); k >= 0 {
+					inner = inner[k+1:]
+				}
+				top := short + "@" + origPos(m[2], ln)
+				if pick > 0 {
+					top += " (in " + inner + ")"
+				}
+				tops = append(tops, top)
 				fns = append(fns, closure.ReplaceAllString(short, ""))
-				break
 			}
 			if len(tops) == 2 {
 				break
